@@ -727,7 +727,7 @@ def run_pool(case, out):
         del whole
         if st.exc is not None:
             o.violate("expression raised: " + st.exc[1], expression=st.exc[0], history=describe(st),
-                      pool=pool_specs, overwrite=ow)
+                      pool=case["pool"], overwrite=ow)
             o.ev("VIOLATION")
             return
         if not st.hist:
@@ -781,7 +781,7 @@ def run_pool(case, out):
             cls = f"pool/{st.last[0]}/{nl}leaf/{'w' if _has_wrap(term) else '-'}/{'T' if T_SLOT in cnt else '-'}/{tcls}"
         key = (case["pool"], st.hist) if (st.hist and st.reuse) else None
         if bad is not None:
-            o.violate(bad[0], history=describe(st), pool=pool_specs, overwrite=ow, **bad[1])
+            o.violate(bad[0], history=describe(st), pool=case["pool"], overwrite=ow, **bad[1])
             cls = "VIOLATION"
         o.ev(cls, key)
         if len(o.samples) < 1 and len(st.hist) >= 2 and st.reuse and st.last and st.last[0] == "ev":
